@@ -9,13 +9,16 @@ from ..cfg import CFG, ENTRY, EXIT, walk_own
 from ..charclass import S, members
 from ..core import PKG, Report
 from ..domain import CONFIG, CONST, ENUM, IDENT, NUM, WORD
-from .effects import bind_call, callee_of, effect_sites, in_context, operand_av, performing
+from .effects import (bind_call, callee_of, constant_of, effect_argument, effect_sites, in_context, operand_av, performing,
+                      state_dependence)
 
 LEVEL = ("effect analysis: every filesystem/process effect site of the package is enumerated; its path operand (string "
          "structure from the abstract interpreter) must be project_dir/package_dir joined with literal or sanitised components, "
          "and E6 proves over all code points that the sanitisers used for components cannot produce '/', '\\\\', NUL, '.' or "
          "'..'; CFG dominance shows no effect precedes the overwrite decision and that models/ and api/ are removed on every "
-         "path; the overwrite flag reaches Config unmodified.")
+         "path and are filled only after a creation that refuses a path still in place; control dependence shows that no write or "
+         "process depends on what the filesystem already holds, apart from the refusal of an existing directory; the overwrite "
+         "flag reaches Config unmodified.")
 
 SAFE = {CONFIG, CONST, WORD, IDENT, NUM, ENUM}
 
@@ -29,8 +32,16 @@ def run(rep: Report, ctx: Any) -> str:
                       "contain no path separator / NUL and results cannot be '.' or '..'; post-hooks run with cwd=project_dir")
     rep.rule("R19.2", "no effect before the existing-directory decision; the decision returns an error unless config.overwrite; "
                       "the --overwrite flag reaches Config.overwrite unmodified")
-    rep.rule("R19.3", "models/ and api/ are removed on every path before being rebuilt; nothing but these rebuilt directories (or paths "
-                      "below them) is ever removed or moved; every other written file has a document-independent name")
+    rep.rule("R19.3", "models/ and api/ are removed on every path before being rebuilt, and filled only once they are known to be new: "
+                      "every write below them follows, on every path, a creation of the directory that fails when the path is still "
+                      "there (or the removal cannot fail silently); nothing but these rebuilt directories (or paths below them) is ever "
+                      "removed or moved; every other written file has a document-independent name")
+    rep.rule("R19.4", "what a generation writes and runs is a function of the document and the configuration, not of what the filesystem "
+                      "already holds: no file write / copy / process is control-dependent on an observation of the filesystem (a probe "
+                      "such as exists / is_file / stat / read / listing, an OSError handler around a filesystem operation, a helper "
+                      "containing one, or a local carrying its outcome) and none takes such an outcome as an argument; the one "
+                      "sanctioned dependence is the refusal of an existing directory (R19.2). Creating a directory and removing a path "
+                      "are not counted: doing so only when needed gives the same tree")
     rep.assumptions += ["--output-path, project/package name overrides and the working directory are the user's own (CONFIG)",
                         "post-hook commands come from the configuration"]
     cfgs: dict[str, CFG] = {}
@@ -319,6 +330,7 @@ def run(rep: Report, ctx: Any) -> str:
 
     # everything is stated from build, the one entry of a generation, through whatever methods and helpers it runs: which method
     # removes, recreates and fills a directory is layout
+    fresh_total: dict[str, int] = {}
     for dname in rebuilt:
         removing = [e for e, av in real if e.what == "rmtree" and place(av, dname) == "is" and always(e)]
         removals = {id(e.node) for e in removing}
@@ -329,25 +341,42 @@ def run(rep: Report, ctx: Any) -> str:
                   where(build, build.node), lhs=[norm(s_)[:60] for s_ in rm], rhs="a removal dominates every successful return")
 
         # every write into the directory comes after the rmtree
-        def preceded(f: Any, st: ast.stmt, node: ast.Call, depth: int = 4) -> bool:
-            """statement st of f, at which the write `node` happens, always runs after the removal: a removal dominates it in f, or
-            st calls a helper in which this holds (remove-and-recreate extracted into one helper)"""
+        def preceded(f: Any, st: ast.stmt, node: ast.Call, marks: set[int], depth: int = 4) -> bool:
+            """statement st of f, at which the write `node` happens, always runs after one of the calls in `marks` (the removals, the
+            creations): such a call dominates it in f, or st calls a helper in which this holds (remove-and-recreate extracted into
+            one helper)"""
             cf = cfg_of(f, cfgs)
-            rm_f = performing(ix, f, lambda c: id(c) in removals, cfgs, must=True)
+            rm_f = performing(ix, f, lambda c: id(c) in marks, cfgs, must=True)
             if cf.is_dominated_by(st, lambda n: n in rm_f):
                 return True
             if depth <= 0 or any(x is node for x in walk_own(st)):
                 return False
             callees = {g for g in (callee_of(ix, f, c) for c in walk_own(st) if isinstance(c, ast.Call)) if g is not None and g != f}
             inner = [(g, s2) for g in callees for s2 in performing(ix, g, lambda c: c is node, cfgs)]
-            return bool(inner) and all(preceded(g, s2, node, depth - 1) for g, s2 in inner)
+            return bool(inner) and all(preceded(g, s2, node, marks, depth - 1) for g, s2 in inner)
 
+        # the directory is known to be new when it is filled: the removal may have left it in place (errors ignored, e.g. a symbolic
+        # link, which rmtree refuses), so either the removal reports its failure or the directory is created by a call that fails on
+        # a path that is still there - a creation that tolerates it would let the run write through whatever stayed
+        strict = bool(removing) and all(_strict_removal(ix, r, cfgs) for r in removing)
+        creations = {id(e.node) for e, av in real if e.what in ("mkdir", "makedirs") and place(av, dname) == "is" and always(e)
+                     and _exclusive_creation(ix, e)}
+        n_fresh = 0
         for e, av in real:
             if e.what in ("write_text", "write_bytes", "mkdir", "makedirs", "open-w", "touch") and place(av, dname) is not None:
                 for st in performing(ix, build, lambda c: c is e.node, cfgs, depth=4):
-                    rep.check(preceded(build, st, e.node) or any(r.node is e.node and removed_first_inside(r, e) for r in removing),
+                    rep.check(preceded(build, st, e.node, removals) or any(r.node is e.node and removed_first_inside(r, e) for r in removing),
                               "R19.3", f"{short(e.func)}::{e.what}({norm(e.target)[:30]})",
                               f"a write into {dname}/ is not preceded by its removal", e.where, lhs=norm(st)[:60], rhs="dominated by rmtree")
+                    if place(av, dname) == "inside":
+                        n_fresh += 1
+                        rep.check(strict or preceded(build, st, e.node, creations), "R19.3",
+                                  f"{short(e.func)}::{e.what}({norm(e.target)[:30]})::into-new-directory",
+                                  f"a write below {dname}/ is not preceded on every path by a creation of {dname}/ that fails when the "
+                                  f"path is still there (the removal ignores errors): what the removal left in place - a symbolic link, "
+                                  f"stale modules - is written through / kept", e.where, lhs=norm(st)[:60],
+                                  rhs=f"dominated by an exclusive mkdir of {dname}/ (no exist_ok), or a removal that does not ignore errors")
+        fresh_total[dname] = n_fresh
     # nothing else is ever removed or moved: only the directories that are rebuilt from the document on every run belong to the
     # generator entirely; everything else in the output location may hold the user's files
     destructive = {"rmtree", "unlink", "rmdir", "remove", "rename", "replace", "move", "removedirs"}
@@ -370,8 +399,52 @@ def run(rep: Report, ctx: Any) -> str:
                 rep.check(lits.startswith("/models/") or lits.startswith("/api/"), "R19.3", f"{short(e.func)}::dynamic-name({dyn[0].text[:40]})",
                           "a file with a document-dependent name is written outside models/ and api/ (never cleaned up)", e.where,
                           lhs=lits, rhs="under /models/ or /api/")
+    rep.floor("writes_below_rebuilt_directories", sum(fresh_total.values()), 4)
+
+    # ---- R19.4 -----------------------------------------------------------------------------------------------------
+    # regenerating converges on what a fresh generation produces only if every file is written (and every hook run) again, whatever
+    # an earlier run left behind. Directory creation and removal are left out (see the rule text); the refusal of an existing
+    # directory - the statements with which build returns the decision's error - is the one exit that may depend on an observation
+    idempotent = {"mkdir", "makedirs"} | destructive
+    producing = {id(e.site) for e, _ in real if e.what not in idempotent}
+    touching = {id(e.site) for e, _ in real}
+    n_indep = 0
+    for d in state_dependence(ix, build, producing, touching, {id(x) for x in refusals}, cfgs):
+        n_indep += 1
+        rep.check(not d.on, "R19.4", f"{short(d.func)}::{norm(d.call)[:50]}::independent-of-existing-files",
+                  f"`{norm(d.call)[:70]}` happens, or gets its arguments, depending on what the filesystem already holds ({d.on[:3]}): "
+                  f"regenerating over an earlier generation no longer gives the tree a fresh generation produces", where(d.func, d.call),
+                  lhs=d.on[:3], rhs="decided by the document and the configuration only")
+    rep.floor("state_independent_writes", n_indep, 10)
     rep.not_decided += ["histories across different metadata flavours (excluded by the property) and file-system races"]
     return LEVEL
+
+
+def _exclusive_creation(ix: Any, e: Any) -> bool:
+    """the directory creation fails when the path already exists: os.mkdir always; Path.mkdir / os.makedirs unless exist_ok is (or may
+    be) true"""
+    if e.what == "mkdir" and not (isinstance(e.site.func, ast.Attribute) and e.site.func.value is e.site_target):
+        return True
+    v = constant_of(effect_argument(ix, e, "exist_ok", 2), False)
+    return v is not ... and not v
+
+
+def _strict_removal(ix: Any, e: Any, cfgs: dict) -> bool:
+    """the rmtree reports a failure: errors are not ignored, not handed to a callback, and not caught where it stands (other than the
+    directory not being there at all)"""
+    ign = constant_of(effect_argument(ix, e, "ignore_errors", 1), False)
+    cbs = [constant_of(effect_argument(ix, e, "onerror", 2), None), constant_of(effect_argument(ix, e, "onexc", -1), None)]
+    if ign is ... or ign or any(c is not None for c in cbs):
+        return False
+    cf = cfg_of(e.site_func, cfgs)
+    for st in cf.stmts():
+        if any(x is e.site for x in walk_own(st)):
+            for h in cf.succ.get(st, ()):
+                if isinstance(h, ast.ExceptHandler):
+                    ts = [] if h.type is None else (h.type.elts if isinstance(h.type, ast.Tuple) else [h.type])
+                    if not ts or any(norm(t).rsplit(".", 1)[-1] != "FileNotFoundError" for t in ts):
+                        return False
+    return True
 
 
 def _rooted(fn: ast.AST, target: ast.expr | None) -> bool:
